@@ -60,8 +60,11 @@ JudgeLed(c, colors, s, e, k, rgb, sn) ==
        ELSE IF s.chan \in extCh THEN <<(IF Near(rgb, colors.active_external) THEN {} ELSE {"C17_NoteKeys"}), <<>>>>
        ELSE IF extCh \ {s.chan} # {} /\ (\E ch \in extCh \ {s.chan} : <<"palette", ch>> \in DOMAIN sn /\ sn[<<"palette", ch>>] = rgb)
               THEN <<{}, <<>>>>
+       \* a channel's colour seen for the first time: not the key's own colour, and not its neighbour channels' colour
        ELSE IF extCh \ {s.chan} # {} /\ (\E ch \in extCh \ {s.chan} : <<"palette", ch>> \notin DOMAIN sn)
                  /\ ~Near(rgb, BaseColour(colors, c.maps[s.map].name, p))
+                 /\ ~(\E ch \in extCh \ {s.chan} : <<"palette", ch>> \notin DOMAIN sn
+                        /\ \E o \in DOMAIN sn : o[1] = "palette" /\ (o[2] = ch + 1 \/ o[2] = ch - 1) /\ sn[o] = rgb)
               THEN <<{}, <<"palette", CHOOSE ch \in extCh \ {s.chan} : <<"palette", ch>> \notin DOMAIN sn>>>>
        ELSE IF p \notin sounding /\ extCh = {} /\ Near(rgb, BaseColour(colors, c.maps[s.map].name, p)) THEN <<{}, <<>>>>
        ELSE <<{"C17_NoteKeys"}, <<>>>>
@@ -71,6 +74,9 @@ JudgeLed(c, colors, s, e, k, rgb, sn) ==
        ELSE IF cls \in DOMAIN sn THEN <<(IF sn[cls] = rgb THEN {} ELSE {"C17_ActionKeys"}), <<>>>>
        \* a class seen for the first time must look different from the other classes of its kind
        ELSE IF \E o \in DOMAIN sn : o[1] = cls[1] /\ o # cls /\ sn[o] = rgb /\ (cls[1] # "chan" \/ (o[2] = cls[2]))
+              THEN <<{"C17_ActionKeys"}, <<>>>>
+       \* "the channel keys reflect the current value": the neighbouring channel does not look the same
+       ELSE IF cls[1] = "chan" /\ \E o \in DOMAIN sn : o[1] = "chan" /\ o[3] = cls[3] /\ (o[2] = cls[2] + 1 \/ o[2] = cls[2] - 1) /\ sn[o] = rgb
               THEN <<{"C17_ActionKeys"}, <<>>>>
        ELSE <<{}, cls>>
 
